@@ -20,10 +20,10 @@ Proof.
       assert (g =? f = false) as -> by lia. reflexivity.
 Qed.
 
-Lemma deferring_insert : forall t f x p i b g,
-    t_deferring (fst (t_insert t f x p i b)) g = t_deferring t g.
+Lemma deferring_insert : forall t f x p i b nh nv g,
+    t_deferring (fst (t_insert t f x p i b nh nv)) g = t_deferring t g.
 Proof.
-  intros t f x p i b g. unfold t_insert.
+  intros t f x p i b nh nv g. unfold t_insert.
   set (r := match t_get t f with Some r => r | None => rib_new end).
   set (t' := t_set t f _).
   assert (t_deferring t' g = t_deferring t g) as H.
@@ -32,17 +32,17 @@ Proof.
   destruct (rf_deferring r); [exact H|]. destruct (negb b || _); exact H.
 Qed.
 
-Lemma insert_deferring_nochange : forall t f x p i b,
-    t_deferring t f = true -> snd (t_insert t f x p i b) = RNoChange.
+Lemma insert_deferring_nochange : forall t f x p i b nh nv,
+    t_deferring t f = true -> snd (t_insert t f x p i b nh nv) = RNoChange.
 Proof.
-  intros t f x p i b H. unfold t_insert. unfold t_deferring in H.
+  intros t f x p i b nh nv H. unfold t_insert. unfold t_deferring in H.
   destruct (t_get t f) as [r|]; [|discriminate]. rewrite H. reflexivity.
 Qed.
 
-Lemma insert_result : forall t f x p i b,
-    snd (t_insert t f x p i b) = RNoChange \/ exists k, snd (t_insert t f x p i b) = RChanged x k.
+Lemma insert_result : forall t f x p i b nh nv,
+    snd (t_insert t f x p i b nh nv) = RNoChange \/ exists k, snd (t_insert t f x p i b nh nv) = RChanged x k.
 Proof.
-  intros t f x p i b. unfold t_insert.
+  intros t f x p i b nh nv. unfold t_insert.
   destruct (rf_deferring _); [left; reflexivity|].
   destruct (negb b || _); [right; eexists; reflexivity | left; reflexivity].
 Qed.
@@ -269,10 +269,10 @@ Lemma K_insert : forall st sm n f x p i b,
     K st sm n -> K (sys_step st (EvInsert f x p i b)) sm n.
 Proof.
   intros st sm n f x p i b H. cbn [sys_step].
-  pose proof (deferring_insert (sys_tab st) f x p i b) as Hd.
-  pose proof (insert_deferring_nochange (sys_tab st) f x p i b) as Hnc.
-  destruct (insert_result (sys_tab st) f x p i b) as [Hr|[k Hr]];
-    destruct (t_insert (sys_tab st) f x p i b) as [t' res]; cbn [fst snd] in *; subst res.
+  pose proof (deferring_insert (sys_tab st) f x p i b 0 false) as Hd.
+  pose proof (insert_deferring_nochange (sys_tab st) f x p i b 0 false) as Hnc.
+  destruct (insert_result (sys_tab st) f x p i b 0 false) as [Hr|[k Hr]];
+    destruct (t_insert (sys_tab st) f x p i b 0 false) as [t' res]; cbn [fst snd] in *; subst res.
   - constructor; cbn [sys_rd sys_log sys_tab]; try apply H.
     + intros g y Hg. rewrite Hd in Hg. apply (k_quiet _ _ _ H); exact Hg.
     + intros g Hg. rewrite Hd. apply (k_flag _ _ _ H); exact Hg.
@@ -499,23 +499,36 @@ Qed.
 
 Definition twf (t : table) : Prop := forall f r, t_get t f = Some r -> NoDup (map fst (rf_dests r)).
 
-Definition ins_rib (t : table) (f : fam) (x p i : N) (b : bool) : ribf :=
+Definition ins_rib (t : table) (f : fam) (x p i : N) (b : bool) (nh : N) (nv : bool) : ribf :=
   let r := match t_get t f with Some r => r | None => rib_new end in
   let old := match d_get (rf_dests r) x with Some l => l | None => [] end in
   {| rf_deferring := rf_deferring r;
      rf_dests := d_set (rf_dests r) x
                    (filter (fun q => negb (same_path p i q)) old ++
-                    [{| pa_peer := p; pa_id := i; pa_filtered := b |}]) |}.
+                    [mk_path p i b nh nv]) |}.
 
-Lemma t_insert_fst : forall t f x p i b, fst (t_insert t f x p i b) = t_set t f (ins_rib t f x p i b).
+Lemma t_insert_fst : forall t f x p i b nh nv, fst (t_insert t f x p i b nh nv) = t_set t f (ins_rib t f x p i b nh nv).
 Proof.
-  intros t f x p i b. unfold t_insert, ins_rib.
+  intros t f x p i b nh nv. unfold t_insert, ins_rib.
   destruct (rf_deferring _); [reflexivity|]. destruct (negb b || _); reflexivity.
+Qed.
+
+Lemma t_get_map_nh : forall t nh rc f,
+    let t' := map (fun kr : fam * ribf =>
+                     (fst kr, {| rf_deferring := rf_deferring (snd kr);
+                                 rf_dests := map (fun e => (fst e, map (nh_flip nh rc) (snd e))) (rf_dests (snd kr)) |})) t in
+    t_get t' f = None \/
+    exists r0, t_get t f = Some r0 /\
+               t_get t' f = Some {| rf_deferring := rf_deferring r0;
+                                    rf_dests := map (fun e => (fst e, map (nh_flip nh rc) (snd e))) (rf_dests r0) |}.
+Proof.
+  induction t as [|[k v] r IH]; intros nh rc f; cbn [map t_get fst snd]; [left; reflexivity|].
+  destruct (k =? f); [right; exists v; split; reflexivity | apply IH].
 Qed.
 
 Lemma twf_step : forall t o, twf t -> twf (fst (t_step t o)).
 Proof.
-  intros t o H f r Hg. destruct o as [g|g x p i b|g|g x p i|g p]; cbn [t_step fst] in Hg.
+  intros t o H f r Hg. destruct o as [g|g x p i b nh nv|g|g x p i|g p|g p|g p|nh rc]; cbn [t_step fst] in Hg.
   - unfold t_start in Hg. destruct (t_get t g) as [r0|] eqn:E; rewrite t_get_t_set in Hg;
       (destruct (f =? g) eqn:Ef; [|apply (H f r Hg)]); inversion Hg; subst; cbn [rf_dests];
       [apply (H g r0 E) | constructor].
@@ -537,34 +550,15 @@ Proof.
   - unfold t_drop in Hg. destruct (t_get t g) as [r0|] eqn:E; [|apply (H f r Hg)].
     cbn [fst] in Hg. rewrite t_get_t_set in Hg. destruct (f =? g); [|apply (H f r Hg)].
     inversion Hg; subst. cbn [rf_dests]. apply NoDup_map_flat_sub. apply (H g r0 E).
-Qed.
-
-Lemma loc_rib_keys : forall l x,
-    In x (map fst (flat_map (fun e : N * list path =>
-                               match unfiltered (snd e) with [] => [] | _ => [(fst e, n_unfiltered (snd e))] end) l))
-    <-> exists ps, In (x, ps) l /\ unfiltered ps <> [].
-Proof.
-  induction l as [|[k v] r IH]; intros x; cbn [flat_map map fst snd].
-  - split; [intros [] | intros [ps [[] _]]].
-  - rewrite map_app, in_app_iff, IH. split.
-    + intros [H|[ps [Hin Hne]]].
-      * destruct (unfiltered v) eqn:E; cbn in H; [contradiction|]. destruct H as [<-|[]].
-        exists v. split; [left; reflexivity | congruence].
-      * exists ps. split; [right; assumption | assumption].
-    + intros [ps [[He|Hin] Hne]].
-      * inversion He; subst. left. destruct (unfiltered ps); [congruence | left; reflexivity].
-      * right. exists ps. tauto.
-Qed.
-
-Lemma loc_rib_nodup : forall l, NoDup (map fst l) ->
-    NoDup (map fst (flat_map (fun e : N * list path =>
-                                match unfiltered (snd e) with [] => [] | _ => [(fst e, n_unfiltered (snd e))] end) l)).
-Proof.
-  induction l as [|[k v] r IH]; intros H; cbn [flat_map map fst snd]; [constructor|].
-  cbn [map fst] in H. inversion H as [|y l' Hy Hl]; subst. rewrite map_app.
-  destruct (unfiltered v); cbn [map fst app]; [apply IH; assumption|].
-  constructor; [|apply IH; assumption].
-  intros Hin. apply loc_rib_keys in Hin. destruct Hin as [ps [Hin _]]. apply Hy. apply in_map_iff. exists (k, ps). tauto.
+  - unfold t_restale in Hg. destruct (t_get t g) as [r0|] eqn:E; [|apply (H f r Hg)].
+    cbn [fst] in Hg. rewrite t_get_t_set in Hg. destruct (f =? g); [|apply (H f r Hg)].
+    inversion Hg; subst. cbn [rf_dests]. rewrite map_map. cbn [fst]. apply (H g r0 E).
+  - unfold t_drop_stale in Hg. destruct (t_get t g) as [r0|] eqn:E; [|apply (H f r Hg)].
+    cbn [fst] in Hg. rewrite t_get_t_set in Hg. destruct (f =? g); [|apply (H f r Hg)].
+    inversion Hg; subst. cbn [rf_dests]. apply NoDup_map_flat_sub. apply (H g r0 E).
+  - unfold t_nhvalid in Hg. cbn [fst] in Hg. destruct (t_get_map_nh t nh rc f) as [Hn|[r0 [E0 E1]]].
+    + rewrite Hn in Hg. discriminate.
+    + rewrite E1 in Hg. inversion Hg; subst. cbn [rf_dests]. rewrite map_map. cbn [fst]. apply (H f r0 E0).
 Qed.
 
 Lemma d_get_In : forall l x ps, NoDup (map fst l) -> (d_get l x = Some ps <-> In (x, ps) l).
@@ -578,54 +572,61 @@ Proof.
     intros [He|Hin]; [inversion He; subst; lia | assumption].
 Qed.
 
-(* one end_deferral(f) call distributes exactly the prefixes of f that have an
-   unfiltered path, each once, and clears the flag *)
+(* one end_deferral(f) call reports every destination of f exactly once, with the number of its
+   eligible (unfiltered, next-hop-valid) paths - a positive number exactly for the prefixes that
+   are held -, and clears the flag *)
 Theorem C11_end_deferral_emits_held_once :
   forall (t : table) (f : fam),
     twf t ->
     let l := snd (t_end t f) in
     NoDup (map fst l)
-    /\ (forall x, In x (map fst l) <-> holds_prefix t f x = true)
+    /\ (forall x k, In (x, k) l -> (k <> 0 <-> holds_prefix t f x = true))
+    /\ (forall x, holds_prefix t f x = true -> In x (map fst l))
     /\ t_deferring (fst (t_end t f)) f = false.
 Proof.
-  intros t f Hw l. split; [|split].
-  - subst l. unfold t_end. destruct (t_get t f) as [r|] eqn:E; cbn [snd]; [|constructor].
-    apply loc_rib_nodup. apply (Hw f r E).
-  - intros x. subst l. unfold t_end, holds_prefix. destruct (t_get t f) as [r|] eqn:E; cbn [snd].
-    + unfold loc_rib. rewrite loc_rib_keys. pose proof (Hw f r E) as Hn. split.
-      * intros [ps [Hin Hne]]. apply (d_get_In _ _ _ Hn) in Hin. rewrite Hin. destruct (unfiltered ps); [congruence | reflexivity].
-      * destruct (d_get (rf_dests r) x) as [ps|] eqn:G; [|discriminate]. intros Hh.
-        exists ps. split; [apply (d_get_In _ _ _ Hn); exact G|]. destruct (unfiltered ps); [discriminate | discriminate].
-    + split; [intros [] | discriminate].
-  - rewrite deferring_end, N.eqb_refl. apply andb_false_r.
+  intros t f Hw l. subst l. unfold t_end, holds_prefix.
+  destruct (t_get t f) as [r|] eqn:E; cbn [snd fst].
+  - pose proof (Hw f r E) as Hn. unfold loc_rib.
+    split; [rewrite map_map; cbn [fst]; exact Hn|]. split; [|split].
+    + intros x k Hin. apply in_map_iff in Hin. destruct Hin as [[x' ps] [He Hin]]. cbn [fst snd] in He.
+      inversion He; subst x' k. apply (d_get_In _ _ _ Hn) in Hin. rewrite Hin.
+      unfold n_unfiltered. destruct (unfiltered ps) as [|q qs]; cbn [length negb].
+      * split; [intros H; exfalso; apply H; reflexivity | discriminate].
+      * split; [reflexivity | intros _; lia].
+    + intros x Hh. destruct (d_get (rf_dests r) x) as [ps|] eqn:G; [|discriminate].
+      apply (d_get_In _ _ _ Hn) in G. rewrite map_map. cbn [fst]. apply in_map_iff. exists (x, ps). split; [reflexivity | exact G].
+    + unfold t_deferring. rewrite t_get_t_set, N.eqb_refl. reflexivity.
+  - split; [constructor|]. split; [intros x k []|]. split; [discriminate|].
+    unfold t_deferring. rewrite E. reflexivity.
 Qed.
 
 (* an insert into a held family is stored (the prefix is held afterwards when
    the path is unfiltered) and nothing is distributed; every table reachable by
-   the three operations is well formed *)
+   the operations of the slice (start, insert, end, remove, drop, restale, drop_stale, next-hop
+   validity) is well formed *)
 Theorem C11_insert_while_deferring_is_held :
-  forall (ops : list tabop) (f : fam) (x p i : N) (b : bool),
+  forall (ops : list tabop) (f : fam) (x p i : N) (b : bool) (nh : N) (nv : bool),
     let t := fold_left (fun t o => fst (t_step t o)) ops [] in
     twf t
     /\ (t_deferring t f = true ->
-        snd (t_insert t f x p i b) = RNoChange
-        /\ t_deferring (fst (t_insert t f x p i b)) f = true
-        /\ (b = false -> holds_prefix (fst (t_insert t f x p i b)) f x = true)).
+        snd (t_insert t f x p i b nh nv) = RNoChange
+        /\ t_deferring (fst (t_insert t f x p i b nh nv)) f = true
+        /\ (b = false -> nv = false -> holds_prefix (fst (t_insert t f x p i b nh nv)) f x = true)).
 Proof.
-  intros ops f x p i b t.
+  intros ops f x p i b nh nv t.
   assert (twf t) as Hw.
   { subst t. assert (twf []) as H0 by (intros g r Hg; discriminate).
     revert H0. generalize (@nil (fam * ribf)). induction ops as [|o r IH]; intros t0 H0; cbn [fold_left]; [exact H0|].
     apply IH. apply twf_step. exact H0. }
   split; [exact Hw|]. intros Hd. split; [apply insert_deferring_nochange; exact Hd|].
-  split; [rewrite deferring_insert; exact Hd|]. intros ->.
+  split; [rewrite deferring_insert; exact Hd|]. intros -> ->.
   rewrite t_insert_fst. unfold holds_prefix. rewrite t_get_t_set, N.eqb_refl. unfold ins_rib. cbn [rf_dests].
   set (r := match t_get t f with Some r => r | None => rib_new end).
   set (new := filter _ _ ++ _).
   assert (forall l n v, d_get (d_set l n v) n = Some v) as Hds.
   { induction l as [|[k w] l' IHl]; intros n v; cbn [d_set d_get]; [rewrite N.eqb_refl; reflexivity|].
     destruct (k =? n) eqn:E; cbn [d_get]; rewrite E; [reflexivity | apply IHl]. }
-  rewrite Hds. subst new. unfold unfiltered. rewrite filter_app. cbn [filter pa_filtered negb].
+  rewrite Hds. subst new. unfold unfiltered. rewrite filter_app. cbn.
   destruct (filter _ (filter _ _)); reflexivity.
 Qed.
 
@@ -655,4 +656,38 @@ Proof.
   destruct (d_get (rf_dests r) x) as [old|]; [|cbn [snd fst]; rewrite E; repeat split; assumption].
   destruct (filter (same_path p i) old) as [|rm rest]; [cbn [snd fst]; rewrite E; repeat split; assumption|].
   rewrite orb_true_r. cbn [snd fst]. rewrite t_get_t_set, N.eqb_refl. cbn [rf_deferring]. repeat split; assumption.
+Qed.
+
+(* ... and so do the stale marking, the stale purge and a next-hop validity change *)
+Lemma In_t_get : forall (t : table) g r, NoDup (map fst t) -> In (g, r) t -> t_get t g = Some r.
+Proof.
+  induction t as [|[k v] rest IH]; intros g r Hn Hin; [inversion Hin|].
+  cbn [map fst] in Hn. inversion Hn as [|y l Hy Hl]; subst. cbn [t_get].
+  destruct Hin as [He|Hin].
+  - inversion He; subst. rewrite N.eqb_refl. reflexivity.
+  - destruct (k =? g) eqn:E; [|apply IH; assumption].
+    apply N.eqb_eq in E; subst. exfalso. apply Hy. apply in_map_iff. exists (g, r). tauto.
+Qed.
+
+Theorem C11_marking_and_nexthop_quiet_while_deferring :
+  forall (t : table) (f : fam) (p nh : N) (rc : bool),
+    t_deferring t f = true ->
+    snd (t_restale t f p) = RChanges []
+    /\ snd (t_drop_stale t f p) = RChanges []
+    /\ t_deferring (fst (t_restale t f p)) f = true
+    /\ t_deferring (fst (t_drop_stale t f p)) f = true
+    /\ (NoDup (map fst t) ->
+        forall l, snd (t_nhvalid t nh rc) = RChangesF l -> forall x k, ~ In (f, x, k) l).
+Proof.
+  intros t f p nh rc Hd. unfold t_deferring in Hd. destruct (t_get t f) as [r|] eqn:E; [|discriminate].
+  unfold t_restale, t_drop_stale, t_deferring. rewrite E, Hd. cbn [snd fst].
+  rewrite !t_get_t_set, N.eqb_refl. cbn [rf_deferring].
+  split; [reflexivity|]. split; [reflexivity|]. split; [reflexivity|]. split; [reflexivity|].
+  intros Hn l Hl x k Hin. unfold t_nhvalid in Hl. cbn [snd] in Hl. inversion Hl; subst l. clear Hl.
+  apply in_flat_map in Hin. destruct Hin as [[g r0] [Hin0 Hin1]]. cbn [fst snd] in Hin1.
+  destruct (rf_deferring r0) eqn:Ed; [inversion Hin1|].
+  apply in_flat_map in Hin1. destruct Hin1 as [e [_ Hin2]].
+  destruct (existsb (nh_hit nh rc) (snd e)); [|inversion Hin2].
+  destruct Hin2 as [He|[]]. inversion He; subst g.
+  rewrite (In_t_get t f r0 Hn Hin0) in E. inversion E; subst r0. congruence.
 Qed.
